@@ -138,12 +138,12 @@ class QueueStream(Stream):
 
     def corpus(self):
         return [
-            # witness of the held-requeue finding: limit 1; A(held) B C queued; B released;
-            # A un-held; next release gives C although A was queued first
+            # regression case (finding fixed in ffd4e73): limit 1; A(held) B C queued; B released;
+            # A un-held; the next release must give A (it gave C: A had lost its place)
             {"all": [0, 1, 2], "desc": [[ROOT, [0, 1, 2]]], "qconfig": [[0, 1, []]],
              "ops": [["held", 0, 1], ["push", 0, 0], ["push", 1, 1], ["push", 2, 2], ["rel", []],
                      ["held", 0, 0], ["rel", []]], "kind": "valid"},
-            # two held tasks swap: H1 X H2, limit 1
+            # regression case (same fix): two held tasks H1 X H2, limit 1, must not swap
             {"all": [0, 1, 2], "desc": [], "qconfig": [[0, 1, []]],
              "ops": [["held", 0, 1], ["held", 2, 1], ["push", 0, 0], ["push", 1, 1], ["push", 2, 2], ["rel", []],
                      ["held", 0, 0], ["held", 2, 0], ["rel", []]], "kind": "valid"},
@@ -493,9 +493,11 @@ META = {
         "LimitedTaskQueue.release never takes a limited queue's active-member count above max(limit, count before), also "
         "for release_tasks over all queues threading the shared counter; the released tasks are exactly the longest "
         "fitting prefix, in queued order, of the non-held tasks; every other task stays queued exactly once; the "
-        "queue-membership invariant holds over all op sequences. The order in which held tasks that were passed over "
-        "re-enter the queue is proved for the code as it is (behind later arrivals: refuted global FIFO, finding) and "
-        "for the proposed fix. The model is tied to the real IndepQueueManager by differential op sequences compared in Coq."),
+        "queue-membership invariant holds over all op sequences; the tasks left in a queue keep their queued order across "
+        "a release (c05_order_preserved, for the code after fix ffd4e73: held tasks that were passed over go back to the "
+        "front in order; the refutation for the pre-fix variant is kept, labelled as such, and its witnesses are "
+        "regression cases of the stream). The model is tied to the real IndepQueueManager by differential op sequences "
+        "compared in Coq."),
     "level_note": (
         "Hand model (not a translation); fake task proxies; the pool-level recount of active members "
         "(TaskPool.count_active_tasks, waiting_on_job_prep) is checked by the scheduler-level stream, not here. "
